@@ -17,7 +17,7 @@ _US.update({'ll_printf.0': 40, 'll_memcpy.0': 4, 'll_strlen.0': 4, 'll_memcmp.0'
             _SETE: 4, _SETE + '.0': 4, _MAPE: 5, _MAPE + '.0': 5, _FDC + '.0': 5, _FDC: 5})
 
 # membuf storage of map/set nodes is a byte array: keep it field-sensitive so that pointers stored in it stay constants
-_FS = ['--max-field-sensitivity-array-size', '200']
+_FS = ['--max-field-sensitivity-array-size', '120', '-DVS_NOBJ=3', '-DVS_NBUF=2', '-DVS_CAP=4']
 
 def _h(hid, desc, domain, quick, thorough=None, tiers=('quick', 'thorough')):
     """quick/thorough: dict(NT, LIBSETS, CODE_FROM, CODE_TO, SKIP3, ncases)"""
@@ -68,15 +68,23 @@ HARNESSES.append(_h('c16_foreign_module', 'a class of the module derives from a 
                     dict(NT=3, LIBSETS='aBc-;Abc-', CODE_FROM=0, CODE_TO=10, SKIP3=1, ncases=16)))
 
 # ---- symbolic dependency graphs (c16_graph.cxx) ----------------------------------------------------------------
-def _g(hid, nl, one, zero, desc, unwind=12, fdc=None, cap=600, tiers=('quick', 'thorough'), td=0, extra_us=None):
+# set nodes are 64 bytes, map nodes 112: field-sensitive up to 120 keeps the pointers in them constants but not the
+# padding arrays of the stream model; small stream pools (symbolic execution cost grows with them)
+_FS2 = ['--max-field-sensitivity-array-size', '120', '-DVS_NOBJ=3', '-DVS_NBUF=2', '-DVS_CAP=4']
+
+def _g(hid, nl, one, zero, desc, lo=0, hi=1, unwind=12, fdc=None, cap=600, tiers=('quick', 'thorough'), td=0, extra_us=None):
     us = dict(_US)
     us.update({_FDC: fdc or nl + 2, _FDC + '.0': nl + 1})
+    us.update({'ll_memcpy.0': 80, 'll_memmove.0': 12, 'll_memmove.1': 12})
+    us.update({'harness_c16_graph.%d' % i: 80 for i in range(24)})
     us.update(extra_us or {})
-    d = dict(NL=nl, E_ONE='%du' % one, E_ZERO='%du' % zero, E_TYPEDEF='%du' % td)
+    d = dict(NL=nl, E_ONE='%du' % one, E_ZERO='%du' % zero, E_TYPEDEF='%du' % td, CODE_FROM='%du' % lo, CODE_TO='%du' % hi)
     return dict(id=hid, property='C16', src='c16_graph.cxx', entry='harness_c16_graph', tus=_TUS, cut=_CUT,
-                models=['printf.c'], cbmc_flags=_FS, desc=desc, domain='', nonterm_is_violation=True,
+                models=['printf.c'], cbmc_flags=_FS2, desc=desc, domain='', nonterm_is_violation=True,
                 bounds=dict(quick=dict(defs=d, unwind=unwind, unwindset=us, cap=cap)), tiers=tiers, oracle='')
-HARNESSES.append(_g('c16_dev2', 2, 0, 0, 'dev'))
+HARNESSES.append(_g('c16_dev2', 2, 0, 0, 'dev', unwind=3, cap=200, extra_us={_SETE: 2, _SETE + '.0': 2, 'll_memcmp.0': 2}))
+HARNESSES.append(_g('c16_dev4s', 4, 576, 54713, 'dev', hi=16, unwind=20))
+HARNESSES.append(_g('c16_dev4c', 4, 10822, 0xFFFF & ~10822, 'dev', unwind=20))
 
 PROPERTY_INFO = {'C16': {'level': 'model_checking',
          'explanation': 'execution of the real library-ordering code of interrogate_module (write_python_table_native, find_dependency_cycle) by the '
